@@ -74,6 +74,7 @@ func (s *state) errRecover(errp *error) {
 // walk recursively goes through each node and executes the indicated logic and
 // writes the output
 func (s *state) walk(node ast.Node) {
+	verifWalk(node)
 	s.val = data.Undefined{}
 	s.at(node)
 	switch node := node.(type) {
